@@ -903,6 +903,213 @@ theorem C17_markCurve_err_leaves_boundary {m m' : Map Val} (h : WF 3 m) (hst : 8
       have := congrArg Prod.fst hr; simp at this; exact this.symm
     exact ⟨this, z, hz, hor, freeOf_none hf⟩
 
+/-! ## (a') without the assertions: faces and boundary edges are always anchored -/
+
+/-- third loop: every face identifier among the scanned darts ends up anchored -/
+theorem classifySurfaces_spec (n : Nat) : ∀ (ds : List Nat) (sid : Nat) (mk : List Nat) (m m' : Map Val),
+    WF 3 m → m.n = n → (∀ d, d ∈ ds → d ≠ 0 ∧ d < n) →
+    run (classifySurfaces n ds sid mk) m = (.ok (), m') →
+    ∀ d, d ∈ ds → m.unused d = false → cellId m .face d = d → (m'.att sFA d).isSome = true := by
+  intro ds
+  induction ds with
+  | nil => intro _ _ _ _ _ _ _ _ d hd; cases hd
+  | cons x xs ih =>
+      intro sid mk m m' h hn hds hr d hd hu hc
+      have hx := hds x List.mem_cons_self
+      have hxs : ∀ d, d ∈ xs → d ≠ 0 ∧ d < n := fun d hd => hds d (List.mem_cons_of_mem _ hd)
+      have hxn : x < m.n := by rw [hn]; exact hx.2
+      -- whatever the branch, the rest of the loop only adds anchors
+      have restGrow : ∀ (sid' : Nat) (mk' : List Nat) (m1 : Map Val),
+          run (classifySurfaces n xs sid' mk') m1 = (.ok (), m') → Grow m1 m' := by
+        intro sid' mk' m1 hr1
+        have := anch_classifySurfaces n xs sid' mk' m1
+        rw [hr1] at this; exact this
+      unfold classifySurfaces at hr
+      simp only [Prog.bind_eq, run_rU, (h.toSized.okU x).2 hxn, if_true] at hr
+      by_cases hux : m.unused x = true
+      · simp only [hux, if_true] at hr
+        rcases List.mem_cons.1 hd with e | e
+        · subst e; rw [hux] at hu; cases hu
+        · exact ih sid mk m m' h hn hxs hr d e hu hc
+      · simp only [hux, if_false, Bool.false_eq_true] at hr
+        rw [← hn] at hr
+        rw [run_bind, (C03_faceId2_min h hx.1 hxn).1] at hr
+        rw [hn] at hr
+        simp only at hr
+        by_cases hcx : cellId m .face x ≠ x
+        · simp only [hcx, if_true, ne_eq, not_false_eq_true] at hr
+          rcases List.mem_cons.1 hd with e | e
+          · subst e; exact absurd hc hcx
+          · exact ih sid mk m m' h hn hxs hr d e hu hc
+        · simp only [hcx, if_false] at hr
+          simp only [run_rA] at hr
+          by_cases hok : m.okA sFA x = true
+          · simp only [hok, if_true] at hr
+            cases hax : m.att sFA x with
+            | some v =>
+                simp only [hax, Option.isSome_some, eq_self, if_true] at hr
+                rcases List.mem_cons.1 hd with e | e
+                · subst e
+                  exact (restGrow _ _ _ hr).mono sFA d (by rw [hax]; rfl)
+                · exact ih sid mk m m' h hn hxs hr d e hu hc
+            | none =>
+                simp only [hax, Option.isSome_none, Bool.false_eq_true, if_false] at hr
+                obtain ⟨mk', m1, h1, hr2⟩ := run_bind_ok hr
+                -- the first pop writes the anchor of `x`, the rest of the colouring only adds
+                have hx1 : (m1.att sFA x).isSome = true ∧ SameTopo m m1 := by
+                  unfold colourSurface at h1
+                  simp only [Prog.bind_eq, run_wA, hok, if_true] at h1
+                  have g := Anch.bind (Anch.orbit n .face x) (fun o =>
+                    Anch.bind (anch_colourDarts n sid o [] mk) fun r =>
+                      anch_colourSurface n sid (n + 1) r.1 r.2) (m.setA sFA x (some (vSurface sid)))
+                  rw [h1] at g
+                  refine ⟨g.mono sFA x ?_, (SameTopo.setA _ _ _ _).trans g.topo⟩
+                  rw [Map.att_setA, if_pos ⟨rfl, rfl, hok⟩]; rfl
+                have t1 := hx1.2
+                rcases List.mem_cons.1 hd with e | e
+                · subst e
+                  exact (restGrow _ _ _ hr2).mono sFA d hx1.1
+                · exact ih (sid + 1) mk' m1 m' (h.sameTopo t1) (by rw [t1.n]; exact hn) hxs hr2 d e
+                    (by rw [t1.unused]; exact hu) (by rw [cellId_sameTopo t1]; exact hc)
+          · simp [hok] at hr
+
+/-- the search of the second loop, when it finds nothing: every in-use 2-free dart has an anchored edge -/
+theorem findUnmarkedBoundary_none {m : Map Val} (h : WF 3 m) : ∀ (ds : List Nat) (m' : Map Val),
+    (∀ d, d ∈ ds → d ≠ 0 ∧ d < m.n) →
+    run (findUnmarkedBoundary m.n ds) m = (.ok none, m') →
+    ∀ d, d ∈ ds → m.unused d = false → m.β 2 d = 0 → (m.att sEA d).isSome = true := by
+  intro ds
+  induction ds with
+  | nil => intro _ _ _ d hd; cases hd
+  | cons x xs ih =>
+      intro m' hds hr d hd hu hb
+      have hx := hds x List.mem_cons_self
+      have hxs : ∀ d, d ∈ xs → d ≠ 0 ∧ d < m.n := fun d hd => hds d (List.mem_cons_of_mem _ hd)
+      unfold findUnmarkedBoundary at hr
+      simp only [Prog.bind_eq, run_rU, (h.toSized.okU x).2 hx.2, if_true] at hr
+      by_cases hux : m.unused x = true
+      · simp only [hux, if_true] at hr
+        rcases List.mem_cons.1 hd with e | e
+        · subst e; rw [hux] at hu; cases hu
+        · exact ih m' hxs hr d e hu hb
+      · simp only [hux, if_false, Bool.false_eq_true] at hr
+        rw [run_bind, run_freeDart h hx.2] at hr
+        cases hfo : freeOf m x with
+        | none =>
+            rw [hfo] at hr
+            simp only at hr
+            rcases List.mem_cons.1 hd with e | e
+            · subst e
+              -- a 2-free dart is the first 2-free dart of its own vertex orbit
+              exfalso
+              have hmem := self_mem_orb h (pol := .vertex) trivial hx.1 hx.2
+              exact freeOf_none hfo d hmem hb
+            · exact ih m' hxs hr d e hu hb
+        | some dd =>
+            rw [hfo] at hr
+            simp only at hr
+            obtain ⟨hmem, hb2⟩ := freeOf_some hfo
+            obtain ⟨hdlt, _⟩ := mem_vorb h hx.2 hmem
+            rw [run_bind, run_edgeId_free h hdlt hb2] at hr
+            simp only [run_rA] at hr
+            by_cases hok : m.okA sEA dd = true
+            · simp only [hok, if_true] at hr
+              cases hax : m.att sEA dd with
+              | none => simp [hax] at hr
+              | some v =>
+                  simp only [hax, Option.isNone_some, Bool.false_eq_true, if_false] at hr
+                  rcases List.mem_cons.1 hd with e | e
+                  · subst e
+                    -- `d` itself is the first 2-free dart of its orbit (the orbit starts with `d`)
+                    have hhead := (C03_orbit2_spec h (pol := .vertex) trivial hx.1 hx.2).2.1
+                    have : freeOf m d = some d := by
+                      unfold freeOf
+                      cases ho : orb m .vertex d with
+                      | nil => rw [ho] at hhead; cases hhead
+                      | cons a as =>
+                          rw [ho] at hhead
+                          simp only [List.head?_cons, Option.some.injEq] at hhead
+                          subst hhead
+                          simp [List.find?_cons, hb]
+                    rw [this] at hfo
+                    cases hfo
+                    rw [hax]; rfl
+                  · exact ih m' hxs hr d e hu hb
+            · simp [hok] at hr
+
+/-- second loop: when it ends with `Ok`, every in-use 2-free dart has an anchored edge -/
+theorem classifyLoops_spec (n : Nat) : ∀ (f cid : Nat) (m m' : Map Val) (r : Nat),
+    WF 3 m → m.n = n → run (classifyLoops n f cid) m = (.ok r, m') →
+    ∀ d, d ≠ 0 → d < n → m'.unused d = false → m'.β 2 d = 0 → (m'.att sEA d).isSome = true := by
+  intro f
+  induction f with
+  | zero => intro cid m m' r _ _ hr; simp [classifyLoops, run] at hr
+  | succ f ih =>
+      intro cid m m' r h hn hr d hd0 hd hu hb
+      unfold classifyLoops at hr
+      simp only [Prog.bind_eq] at hr
+      obtain ⟨res, m1, h1, hr⟩ := run_bind_ok hr
+      have e1 : m1 = m := (readOnly_findUnmarkedBoundary n _).run_ok h1
+      rw [e1] at h1 hr
+      clear e1
+      cases res with
+      | none =>
+          simp only [Prog.pure_eq, run_ret, Prod.mk.injEq] at hr
+          obtain ⟨_, e⟩ := hr
+          rw [← e] at hu hb ⊢
+          rw [← hn] at h1 hd
+          exact findUnmarkedBoundary_none h _ _ (fun d hd => mem_darts.1 hd) h1 d
+            (mem_darts.2 ⟨hd0, hd⟩) hu hb
+      | some dart =>
+          simp only at hr
+          obtain ⟨v, m2, h2, hr⟩ := run_bind_ok hr
+          obtain ⟨_, m3, h3, hr⟩ := run_bind_ok hr
+          obtain ⟨_, m4, h4, hr⟩ := run_bind_ok hr
+          have g2 : Grow m m2 := by
+            have := Anch.vid n dart m; rw [h2] at this; exact this
+          have g3 : Grow m2 m3 := by
+            have := Anch.wA sVA v (vCurve (cid + 1)) m2; rw [h3] at this; exact this
+          have g4 : Grow m3 m4 := by
+            have := anch_markCurve n dart (cid + 1) m3; rw [h4] at this; exact this
+          have t := (g2.trans (g3.trans g4)).topo
+          exact ih (cid + 1) m4 m' r (h.sameTopo t) (by rw [t.n]; exact hn) hr d hd0 hd hu hb
+
+/-- **C17 (a'), no assertion needed**: whenever the three classification loops end without error on a
+    well-formed 2-map — whatever anchors the map carried before — every face identifier of an in-use
+    dart and the edge of every in-use 2-free dart (every boundary edge) has an anchor -/
+theorem C17_core_faces_and_boundary_edges_anchored {m m' : Map Val} (h : WF 3 m)
+    (hr : run (classifyCore m.n) m = (.ok (), m')) :
+    ∀ d, d ≠ 0 → d < m'.n → m'.unused d = false →
+      (m'.att sFA (cellId m' .face d)).isSome = true ∧
+      (m'.β 2 d = 0 → (m'.att sEA d).isSome = true) := by
+  unfold classifyCore at hr
+  simp only [Prog.bind_eq] at hr
+  obtain ⟨cid, m1, h1, hr⟩ := run_bind_ok hr
+  obtain ⟨r, m2, h2, hr⟩ := run_bind_ok hr
+  have g1 : Grow m m1 := by
+    have := anch_classifyNodes m.n (List.range' 1 (m.n - 1)) 0 0 m; rw [h1] at this; exact this
+  have g2 : Grow m1 m2 := by
+    have := anch_classifyLoops m.n (m.n + 1) cid m1; rw [h2] at this; exact this
+  have g3 : Grow m2 m' := by
+    have := anch_classifySurfaces m.n (List.range' 1 (m.n - 1)) 0 [0] m2; rw [hr] at this; exact this
+  have hw1 := h.sameTopo g1.topo
+  have hw2 := hw1.sameTopo g2.topo
+  have hn2 : m2.n = m.n := (g1.topo.trans g2.topo).n
+  have hn' : m'.n = m.n := (g1.topo.trans (g2.topo.trans g3.topo)).n
+  intro d hd0 hd hu
+  rw [hn'] at hd
+  have hu2 : m2.unused d = false := by rw [← g3.topo.unused]; exact hu
+  constructor
+  · rw [cellId_sameTopo g3.topo]
+    obtain ⟨f0, flt, fu, fid⟩ := cell_rep hw2 (pol := .face) trivial hd0 (by rw [hn2]; exact hd) hu2
+    rw [hn2] at flt
+    exact classifySurfaces_spec m.n _ 0 [0] m2 m' hw2 hn2 (fun d hd => mem_darts.1 hd) hr _
+      (mem_darts.2 ⟨f0, flt⟩) fu fid
+  · intro hb
+    have := classifyLoops_spec m.n (m.n + 1) cid m1 m2 r hw1 g1.topo.n h2 d hd0 hd hu2
+      (by rw [← g3.topo.β]; exact hb)
+    exact g3.mono sEA d this
+
 /-! ## non-vacuity: the hypotheses are satisfiable, the conclusions are not trivial -/
 
 /-- one square face 1-2-3-4, all sides 2-free, nine storages -/
